@@ -7,7 +7,7 @@ from collections import Counter
 
 from hypothesis import strategies as st
 
-from .. import core, pwgen, trainer
+from .. import core, pwgen, rsmodel, trainer, strategies as S
 from ..core import Part, Violation, guard
 
 core.use_repo()
@@ -257,6 +257,10 @@ def prop(case, rec):
         rec.skip('trainer_did_not_complete')
         return
     P = r.parser
+    if case.get('file_style'):
+        # the ruleset after a line-end conversion / hand edit of its files (CRLF, last line without terminator)
+        rsmodel.restyle(out, case['file_style'])
+        rec.cls('trained_ruleset_restyled_' + case['file_style'].get('eol', 'lf'))
     g = guard(case, guesser.load, out)
     sc = PCFGPasswordScorer(limit=0)
     with core.quiet():
@@ -382,7 +386,8 @@ def cases(draw):
         raw.append((b'$HEX[' + 'ps\u2029x'.encode('utf-8').hex().encode('ascii') + b']').hex())
         raw.append((b'$HEX[' + 'nel\u0085x'.encode('utf-8').hex().encode('ascii') + b']').hex())
     return {'entries': entries, 'encoding': enc, 'raw_lines': raw, 'coverage': draw(st.sampled_from([0.6, 0.3, 1, 0])),
-            'ngram': draw(st.sampled_from([2, 3, 4])), 'alphabet_size': draw(st.sampled_from([100, 30, 10])), 'previous_training': draw(st.integers(0, 2)) == 0}
+            'ngram': draw(st.sampled_from([2, 3, 4])), 'alphabet_size': draw(st.sampled_from([100, 30, 10])), 'previous_training': draw(st.integers(0, 2)) == 0,
+            'file_style': draw(S.file_styles()) if draw(st.integers(0, 2)) == 0 else None}
 
 
 def run_trained(rec, seed, shard, nshards, tier):
